@@ -85,8 +85,15 @@ def make_backend(chooser, mon):
                     raise RuntimeError('STUCK: coordinator keeps waiting with nothing in flight')
                 return
             mon['idle_waits'] = 0
-            i = chooser(len(self.inflight))
-            task, name, use_cache = self.inflight.pop(i)
+            first = True
+            while self.inflight and (first or mon.get('batch')):
+              # batch mode: every task in flight completes within this one poll (several completions per wait())
+              first = False
+              i = chooser(len(self.inflight)) if not mon.get('batch') else 0
+              task, name, use_cache = self.inflight.pop(i)
+              yield from self._finish(task, name, use_cache)
+
+        def _finish(self, task, name, use_cache):
             try:
                 for d in get_direct_dependencies(task):
                     d._set_results_map(self.results_map)
@@ -172,7 +179,7 @@ def scenarios(tier):
     return out
 
 
-def run_schedule(tasks, cached, prefix, continue_on_failure=True):
+def run_schedule(tasks, cached, prefix, continue_on_failure=True, batch=False):
     """Run one schedule (list of choice indices; beyond the prefix always 0). Returns (monitor, branching factors)."""
     import labtech
     from replay.universe import closure, expected_value
@@ -183,7 +190,7 @@ def run_schedule(tasks, cached, prefix, continue_on_failure=True):
         k = len(factors)
         factors.append(n)
         return prefix[k] if k < len(prefix) else 0
-    mon = dict(events=[], violations=[], submitted=[], finished=[], ok=[], waits=0, idle_waits=0)
+    mon = dict(events=[], violations=[], submitted=[], finished=[], ok=[], waits=0, idle_waits=0, batch=batch)
 
     def rest_hook(runner):
         st = mon.get('closure_all')
@@ -289,6 +296,11 @@ def explore_controlled(tier, budget_s):
     found = []
     truncated = False
     for name, tasks, cached in scenarios(tier):
+        # one schedule per scenario in which every poll reports ALL tasks in flight (batched completions)
+        monb, _ = run_schedule(tasks, cached, [], batch=True)
+        n_sched += 1
+        for prop, msg in monb['violations']:
+            found.append(dict(prop=prop, scenario=name + '/batched-polls', schedule='all in flight complete in each poll', message=msg))
         stack = [[]]
         seen = 0
         while stack:
@@ -700,7 +712,7 @@ def main():
             # IS the failure spreading (the monitors file it under C05/C11, which it also breaks)
             mine += [dict(f, prop='C10', message='after a task failed: ' + f['message']) for f in found if f['prop'] in ('C05', 'C11') and 'fail' in f['scenario'].lower()]
         items.append(dict(name='explore:controlled-schedules', bounded=True,
-                          bound=f'{len(scenarios(a.tier))} scenarios of <= 5 tasks, every completion order one task per wait (schedules run: {n}{", truncated by budget" if trunc else ""})',
+                          bound=f'{len(scenarios(a.tier))} scenarios of <= 5 tasks, every completion order one task per wait, plus one schedule per scenario in which each poll reports every task in flight (schedules run: {n}{", truncated by budget" if trunc else ""})',
                           violation=bool(mine), witness=mine[:3], other_properties=sorted({f['prop'] for f in found if f['prop'] != a.prop})))
         if a.prop in ('C02', 'C01', 'C03', 'C06', ''):
             f3 = explore_multicall()
